@@ -252,7 +252,7 @@ fn c09_k_helpers_fixed_adders() {
 // What stays under test at the protocol level is everything else: which octets are summed (pseudo header fields,
 // protocol number, lengths, header fields, zeroed checksum field, payload), grouping/padding, the no-zero rule,
 // byte order of the result.
-mod ideal {
+pub(crate) mod ideal {
     fn w(hi: u8, lo: u8) -> u64 {
         ((hi as u64) << 8) | lo as u64
     }
